@@ -890,6 +890,70 @@ def probe_witness(ctx):
                                  observed=repr(traces[1]))
 
 
+def dialogue_histories():
+    """Multi-message dialogues started for alice (keyboard-interactive: request, another round, final answer;
+    gssapi-with-mic: request, token, MIC) with, at every point of the dialogue, a repeated SERVICE_REQUEST
+    'ssh-userauth', a request under another username (refused by the application), or both.
+    Yields (name, [(ptype, payload, env, tag)]) -- tag 'intruder' marks the other user's request."""
+    base = {"gss": True, "mechok": True, "tok": 2, "micok": True, "kexctx": True, "banner": False}
+
+    def req(user, method, extra=b""):
+        return s_(user) + s_(b"ssh-connection") + s_(method) + extra
+
+    kbd = [(50, req(b"alice", b"keyboard-interactive", s_(b"") + s_(b"")), dict(base, res=3), "dialogue"),
+           (61, struct.pack(">I", 1) + s_(b"a1"), dict(base, res=3), "dialogue"),
+           (61, struct.pack(">I", 1) + s_(b"a2"), dict(base, res=0), "dialogue")]
+    gss = [(50, req(b"alice", b"gssapi-with-mic", struct.pack(">I", 1) + s_(b"\x06\x09mech")), dict(base, res=0), "dialogue"),
+           (61, s_(b"tok"), dict(base, res=0), "dialogue"), (66, s_(b"mic"), dict(base, res=0), "dialogue")]
+    svc = (5, s_(b"ssh-userauth"), dict(base, res=2), "service")
+    intr_none = (50, req(b"root", b"none"), dict(base, res=2), "intruder")
+    intr_pw = (50, req(b"root", b"password", b"\x00" + s_(b"pw")), dict(base, res=2), "intruder")
+    for dname, dia in (("keyboard-interactive", kbd), ("gssapi-with-mic", gss)):
+        for k in range(0, len(dia) + 1):
+            for iname, ins in (("service-request", [svc]), ("service-request+other-user", [svc, intr_none]),
+                               ("other-user", [intr_pw]), ("service-request-twice+other-user", [svc, svc, intr_pw])):
+                if k in (0, len(dia)) and iname != "service-request":
+                    continue
+                yield ("%s, %s before message %d" % (dname, iname, k), dia[:k] + ins + dia[k:])
+
+
+def who_defect(authenticated, who, asked):
+    """WHO ends up authenticated against who was approved: the dialogue belongs to alice; nobody else may be
+    reported, and the application must never be asked about the other user once alice is pinned."""
+    if authenticated and who != "alice":
+        return "success-for-other-username", "the server reports %r as authenticated, the approved dialogue was alice's" % (who,)
+    if any(u not in ("alice", None) for u in asked):
+        return "other-username-evaluated", "callbacks were asked about %r although alice was pinned" % (asked,)
+    return None
+
+
+def dialogue_witness(ctx):
+    """Direct drive of the real AuthHandler through every history of dialogue_histories()."""
+    World, _, _ = make_world()
+    holder = {}
+    with gss_patch(holder):
+        for name, hist in dialogue_histories():
+            steps = [(p, pl, env, None, {}) for (p, pl, env, _) in hist]
+            w = World(b"SID-d")
+            holder["world"] = w
+            asked = []
+            for st in steps:
+                tr = w.deliver(*st[:3])
+                asked += [ev[2] for ev in tr if ev[0] == "cb" and ev[1] != "interactive_response"]
+            ctx.count(("dialogue-witness", name), kind="dialogue-witness")
+            who = w.handler.get_username()
+            bad = who_defect(w.handler.authenticated, who, asked)
+            intruder = any(t == "intruder" for (_, _, _, t) in hist)
+            # (liveness sanity only where nothing aborts the dialogue: a SERVICE_REQUEST ends a gssapi-with-mic exchange)
+            if bad is None and not intruder and not w.handler.authenticated and name.startswith("keyboard"):
+                bad = ("valid-dialogue-rejected", "alice's approved dialogue did not authenticate her")
+            if bad:
+                ctx.fail(bad[0] + ":" + name.split(",")[0] + ":" + name.split(", ")[1].split(" before")[0],
+                         "history [%s]: %s" % (name, bad[1]), case=case_repr(b"SID-d", steps),
+                         expected="only alice can be authenticated / evaluated",
+                         observed={"authenticated": w.handler.authenticated, "get_username": who, "asked": asked})
+
+
 def gss_witness(ctx):
     """Deterministic grid over the gssapi paths: callback result x MIC valid x context present x
     accept_sec_context outcome.  Authenticated iff the callback approves AND the proof is valid."""
@@ -959,11 +1023,13 @@ def run(ctx):
     sig_witness(ctx)
     pin_witness(ctx)
     probe_witness(ctx)
+    dialogue_witness(ctx)
     unbound = run_sequences(ctx, 160 * scale, c14_oracle, "seq")
     blob_cases(ctx, 80 * scale)
     n = real_key_cases(ctx)
     import c15          # (lazy: c15 imports this module)
     ctx.notes.append("gssapi-with-mic on a real loopback server transport: %s" % c15.gss_mic_loopback(ctx))
+    ctx.notes.append("dialogues with re-keys / repeated service requests on real transports: %s" % c15.dialogue_loopback(ctx))
     ctx.notes.append("real-key signature cases: %d; GssapiWithMicAuthHandler table entries are unbound functions: "
                      "%d dispatches needed an explicit self (the real Transport.run would raise TypeError there and "
                      "stop, emitting nothing)" % (n, unbound))
